@@ -24,7 +24,6 @@ Fixpoint mem_str (s : str) (l : list str) : bool :=
 
 Definition COLON : N := 58%N.
 Definition UNDERSCORE : N := 95%N.
-Definition s_None : str := [78; 111; 110; 101]%N.            (* str(None) *)
 Definition s_value : str := [118; 97; 108; 117; 101]%N.
 Definition s_target : str := [116; 97; 114; 103; 101; 116]%N.
 Definition s_InternalError : str := [73;110;116;101;114;110;97;108;69;114;114;111;114]%N.
@@ -99,16 +98,21 @@ Record msg := { m_action : action; m_ident : option str; m_data : data }.
 (* cache entry: value id (None for an error entry), timestamp, readerror (python class, text) *)
 Definition entry := (option nat * tnum * option (str * str))%type.
 
-(* identifier -> (module, parameter), with the default accessible shorthand (lines 458-464) *)
+(* identifier -> (module, parameter), with the default accessible shorthand (lines 458-464; since repository commit 0fe05ab only for a non-empty identifier) *)
 Definition has_colon (s : str) : bool := existsb (N.eqb COLON) s.
 Definition resolve (C : client) (a : action) (ident : option str) : option key :=
-  let direct := match ident with Some i => assoc_last str_eqb i (internal C) | None => None end in
-  match direct with
-  | Some k => Some k
-  | None =>
-      if has_colon (match ident with Some i => i | None => [] end) then None
-      else let shown := match ident with Some i => i | None => s_None end in   (* f'{ident}:value' formats None as 'None' *)
-           assoc_last str_eqb (mk_ident shown (match a with AChanged => s_target | _ => s_value end)) (internal C)
+  match ident with
+  | None => None                                 (* internal.get(None) misses; `ident and ...` is false: no shorthand *)
+  | Some i =>
+      match assoc_last str_eqb i (internal C) with
+      | Some k => Some k
+      | None =>
+          match i with
+          | [] => None                           (* an empty identifier is falsy as well (decode_msg never delivers one) *)
+          | _ => if has_colon i then None
+                 else assoc_last str_eqb (mk_ident i (match a with AChanged => s_target | _ => s_value end)) (internal C)
+          end
+      end
   end.
 
 (* timestamp = min(now, data[..].get('t', now)); None: the comparison raises *)
